@@ -45,12 +45,23 @@ impl InputColumn {
             }
             ColumnData::String(data) => {
                 assert!(
-                    (data.len() as u64) == rows,
+                    (data.len() as u64) <= rows,
                     "rows: {}, data.len(): {}",
                     rows,
                     data.len()
                 );
-                InputColumn::Str(data)
+                if (data.len() as u64) < rows {
+                    // Short dense column (trailing rows without a value): pad with NULL like the numeric columns.
+                    let missing = rows as usize - data.len();
+                    InputColumn::Mixed(
+                        data.into_iter()
+                            .map(Value::Str)
+                            .chain(std::iter::repeat(Value::Null).take(missing))
+                            .collect(),
+                    )
+                } else {
+                    InputColumn::Str(data)
+                }
             }
             ColumnData::Empty => InputColumn::Null(rows as usize),
             ColumnData::SparseI64(data) => InputColumn::NullableInt(rows, data),
